@@ -8,6 +8,7 @@ CONSTANTS
   Backup = "any"
   Scenes <- Pair
   DispWrite = "every"
+  MatTable = "own"
 INVARIANT TypeOK
 INVARIANT DeviceCells
 INVARIANT Range
